@@ -358,7 +358,7 @@ fn plan(tier: Tier) -> Plan {
             }
         }
     }
-    Plan { directed: directed_witnesses(), exh, random: tier.pick(6_000, 100_000) }
+    Plan { directed: directed_witnesses(), exh, random: tier.pick(12_000, 100_000) }
 }
 
 const HANG_CPU_SECS: f64 = 10.0;
